@@ -299,7 +299,7 @@ func c12Scenario(r *vf.Run, t *testing.T, id string, rng *rand.Rand) {
 			}
 			replay["mutation"] = op
 		case "adversary":
-			kind := rng.Intn(19)
+			kind := rng.Intn(20)
 			if silence {
 				kind = 99
 			}
@@ -360,6 +360,46 @@ func c12Scenario(r *vf.Run, t *testing.T, id string, rng *rand.Rand) {
 				e.P.Write(wire.Frame(nil, wire.TContinuation, wire.FEndHeaders, anyStream, []byte{0x88}, -1))
 			case 12:
 				e.P.Write(wire.Frame(nil, wire.THeaders, wire.FEndHeaders|wire.FEndStream, anyStream, []byte{0xff, 0xff, 0xff, 0xff, 0xff, 0xff, 0xff, 0xff, 0xff, 0xff, 0xff, 0x01}, -1))
+			case 19:
+				// full duplex: one more request uploads from a reader that has nothing to give yet, and the server is already
+				// answering it - headers and 150-400 small DATA frames, more than the client's reply queue holds, each of which
+				// earns the stream credit. Then the reader delivers, the server ends the response: everything is resolved.
+				gr := &gatedReader{gate: make(chan struct{}), b: make([]byte, 3000)}
+				dq := genCliReq(rng, id, 300, 0, 0)
+				dq.Method = "POST"
+				dc := e.Do(dq.Tag, func(req *fasthttp.Request) {
+					dq.build(req)
+					req.Header.SetMethod("POST")
+					req.SetBodyStream(gr, -1)
+				})
+				rt.Wait()
+				var dsid uint32
+				for _, s := range e.RequestsSeen() {
+					if tag, _ := s.Get("x-vtag"); tag == dq.Tag {
+						dsid = s.Stream
+					}
+				}
+				if dsid != 0 {
+					out := rt.Concat(rt.HeaderFrames(dsid, e.P.EncodeBlock([]F{{Name: ":status", Value: "200"}}, nil), nil, -1, nil, false))
+					nfr := 150 + rng.Intn(250)
+					for i := 0; i < nfr; i++ {
+						out = append(out, wire.Frame(nil, wire.TData, 0, dsid, []byte("echo-chunk"), -1)...)
+					}
+					e.P.Write(out)
+					rt.Wait()
+					close(gr.gate)
+					rt.Wait()
+					e.P.Write(append(rt.WindowUpdate(dsid, 1<<20), wire.Frame(nil, wire.TData, wire.FEndStream, dsid, []byte("done"), -1)...))
+					rt.Wait()
+					if done, err, _ := dc.Outcome(); !done {
+						fail("request-stranded", fmt.Sprintf("family adversary/a19: the full-duplex request %s (stream %d) is unresolved although the server has completed its response (%d DATA frames while the request body reader was waiting, then END_STREAM) and the client is quiescent", dq.Tag, dsid, nfr))
+					} else if err != nil {
+						r.Inc("full_duplex_requests_failed", 1)
+					} else {
+						r.Inc("full_duplex_requests_answered", 1)
+					}
+					replay["full_duplex_data_frames"] = nfr
+				}
 			case 18:
 				// a response that is cut short by RST_STREAM(NO_ERROR): headers (content-length 10), five octets of DATA, then the
 				// reset. RFC 7540 8.1 lets a server reset with NO_ERROR *after* a complete response; this one is not complete,
